@@ -44,18 +44,27 @@ def gen_case(rnd, tier: str, i: Any) -> Dict[str, Any]:
         pool = pool[:2] + rnd.sample(META_OPS, rnd.randint(2, 4))
     first_step = gen_sim.pick_first_step(rnd)
     files = {}
+    mirrored = False
+    mirror = rnd.random() < 0.35
     autograd = n_steps >= 1 and rnd.random() < 0.3        # an autograd thread whose operators are re-parented beneath the main thread's annotations
     for r in range(n_ranks):
         p = gen_sim.random_params(rnd, tier, rank=r, n_steps=n_steps, first_step=first_step, autograd=autograd, avoid_k1=True, repeat_names=True,
                                   max_depth=rnd.choice([3, 5]), ops_per_step=rnd.choice([(3, 8), (6, 12), (6, 12)]), n_threads=2 if autograd else rnd.choice([1, 1, 2]),
                                   p_sync=rnd.choice([0.0, 0.1]), p_event=0.0, p_leaf_children=rnd.choice([(0, 3), (1, 4), (2, 5)]), pre_ops=rnd.choice([1, 3]))
         p["ops_pool"] = pool
+        if mirror:
+            p["p_annotation"] = 0.4
         tr = gen_sim.gen_trace(rnd, **p)
         gen_sim.drop_events(rnd, tr, p_launch=rnd.choice([0, 0, 0.1]), p_kernel=rnd.choice([0, 0, 0.1]))
+        if mirror:
+            gen_sim.mirror_annotations(rnd, tr)          # device-side copies of the host annotations, under the same names
+            mirrored = True
         if not autograd and p["n_threads"] == 1 and rnd.random() < 0.3:
             gen_sim.twin_thread(tr)             # a second worker thread running the same operators at the same instants
         files[f"rank{r}.json"] = tr
     names = pool * 3 + ["cudaLaunchKernel", "aten::nonexistent", "ProfilerStep", "aten::"] + (rnd.sample(META_QUERIES, 4) if meta else [])
+    if mirrored:
+        names += ["my_region", "fwd_block", "## backward ##", "## forward ##", "##"] * 2
     if autograd:
         names += ["autograd::engine::evaluate_function", "## backward ##", "ProfilerStep", "Backward0", f"ProfilerStep#{first_step}"] * 2
     qs = [{"op": rnd.choice(names), "min_len": rnd.choice([1, 1, 1, 2, 2, 3, 5, 0]), "top_k": rnd.choice([1, 5]), "rank": rnd.randrange(n_ranks)}
@@ -65,6 +74,9 @@ def gen_case(rnd, tier: str, i: Any) -> Dict[str, Any]:
 
 def expected(kept: List[raw.Ev], link: Dict[int, int], q: Dict[str, Any]):
     """-> (Counter pattern -> [count, gpu, cpu], info) or None when an instance has tied device start times."""
+    # device-side annotations (Kineto's mirror of a host annotation, under the same name) are neither operators of a call stack nor
+    # device activities launched by one
+    kept = [e for e in kept if e.cat not in ("gpu_user_annotation", "cuda_profiler_range")]
     byid = {e.id: e for e in kept}
     par: Dict[int, int] = {}
     threads = wf.host_threads(kept)
